@@ -61,6 +61,8 @@ def main():
             exc = None
             try: ob.fn(c)
             except oblig.Failure: continue
+            except ImportError as e:
+                r = {'outcome': 'error', 'failures': [], 'exception': None, 'stderr': 'harness import error: %s' % e, 'tried': r['tried']}; break
             except BaseException as e: exc = '%s: %s' % (type(e).__name__, e)
             r['tried'] += 1
             if exc or c.failures:
